@@ -76,6 +76,13 @@ func init() {
 				p.PProbe = 0.08
 				p.AllModules = true
 			})
+			if seed%12 == 7 {
+				// relays of one session held up by a reader that stopped while a member switches
+				// to another session: from its join answer on it sees nothing of the old one
+				sc := genOffender(seed, tier, "stall")
+				sc.Prop = "C03"
+				return sc
+			}
 			if seed%3 == 2 {
 				// a third of the runs (short ones): session ends, creations and joins overlapping at lock
 				// granularity (a reused id must never cut a live session off); no second execution
